@@ -437,6 +437,10 @@ func (x *Exec) verifyFuncPass(d *Decl, res *UnitResult, fd *ast.FuncDecl, fixed 
 			}
 		}
 		if !onlyPost {
+			if x.panicsIf != nil {
+				x.oblige("panics_iff.ret", rs, mkNot(x.panicsIf), fd, "normal return only when the panic condition is false")
+				rs.assume(mkNot(x.panicsIf))
+			}
 			// frame and shape of objects modified through pointer parameters
 			for _, rp := range refParams {
 				mod := map[string]bool{}
@@ -460,10 +464,6 @@ func (x *Exec) verifyFuncPass(d *Decl, res *UnitResult, fd *ast.FuncDecl, fixed 
 						x.oblige("frame", rs, eq, fd, "field "+rp.name+"."+fname+" is not in the modifies clause and keeps its value")
 					}
 				}
-			}
-			if x.panicsIf != nil {
-				x.oblige("panics_iff.ret", rs, mkNot(x.panicsIf), fd, "normal return only when the panic condition is false")
-				rs.assume(mkNot(x.panicsIf))
 			}
 			if sig.Results().Len() == 1 {
 				if _, ok := sig.Results().At(0).Type().Underlying().(*types.Pointer); ok && !d.nullable() {
